@@ -58,8 +58,8 @@ def build(key, variant, i):
         env['txt'] = txt
         return {'env': env, 'call': lambda: me.base64url_decode(txt)}
     stored = [(bytes(int(x) for x in i[f's{j}_']), bytes(int(x) for x in i[f'y{j}_'])) for j in range(NSTORED)]
-    nreq = {'one-id': 1, 'two-ids': 2, 'no-ids': 0, 'kids-missing': 0, 'type-missing': 1}[variant]
-    ids = [text_of(i[f'q{k}_']) for k in range(nreq)]
+    nreq = {'one-id': 1, 'two-ids': 2, 'no-ids': 0, 'kids-missing': 0, 'type-missing': 1, 'one-id-and-a-short-id': 1}[variant]
+    ids = [text_of(i[f'q{k}_']) for k in range(nreq)] + ([text_of(i['h0_'])] if variant == 'one-id-and-a-short-id' else [])
     req = {}
     if variant != 'kids-missing':
         req['kids'] = list(ids)
@@ -67,7 +67,7 @@ def build(key, variant, i):
         req['type'] = 'temporary'
 
     def get_kids(kids):
-        kids = [k.lower() for k in kids]
+        kids = [k.hex if hasattr(k, 'raw') else k.lower() for k in kids]
         return {kid.hex(): NS(KID=NS(raw=kid), KEY=NS(raw=key)) for kid, key in stored if kid.hex() in kids}
 
     def item_is(item, j):
@@ -80,7 +80,8 @@ def build(key, variant, i):
                times_listed=lambda keys, j: sum(1 for it in keys if item_is(it, j)),
                only_requested_stored_keys=lambda keys, xs: all(any(item_is(it, j) and requested(xs, j) for j in range(NSTORED))
                                                                for it in keys))
-    glb2 = dict(glb, flask=NS(request=NS(json=req)), models=NS(Key=NS(get_kids=get_kids)),
+    from dashlive.drm.keymaterial import KeyMaterial
+    glb2 = dict(glb, KeyMaterial=KeyMaterial, flask=NS(request=NS(json=req)), models=NS(Key=NS(get_kids=get_kids)),
                 jsonify=lambda data, status=None: NS(data=data, status=200 if status is None else status))
     me = extract_class(CK, 'ClearkeyHandler', glb2)()
     return {'env': env, 'call': lambda: me.post()}
